@@ -148,6 +148,23 @@ def run(ck, prog, ctx):
         else:
             kinds = {s["kind"] for s in sel}
             ck.ob("SELECT", name + "/reduce", kinds == {"max"}, "%s reduces each line with a %s selection (%s)" % (name, "/".join(sorted(kinds)), sel[0]["detail"]), where=b.where(sel[0]["line"]))
+        # the maximum of a line is taken over the line's entries ONLY: a fold seeded with a finite constant clamps it from below
+        # (user-supplied similarities may be negative: the property quantifies over arbitrary term similarity functions)
+        for fb in fam:
+            for bi, t in fb.calls():
+                if t.callee.trait == "std::iter::Iterator" and t.callee.method == "fold" and len(t.args) >= 3:
+                    init = t.args[1]
+                    fv = init.float_value() if init.kind == "const" else None
+                    if init.kind != "const":
+                        ck.ob("SELECT", name + "/seed", True, "%s folds each line starting from a value (not a constant)" % name, where=fb.where(t.line))
+                    elif fv is None:
+                        ck.undecided("SELECT", name + "/seed", "%s folds each line starting from a constant that is not a literal (%s)" % (name, init), where=fb.where(t.line))
+                    else:
+                        ok = fv == float("-inf") or fv <= -3.0e38
+                        ck.ob("SELECT", name + "/seed", ok, "%s folds each line starting from %s%s" % (name, fv, "" if ok else ": the maximum of a line is clamped from below by this constant (a line of negative similarities yields %s)" % fv), where=fb.where(t.line))
+                if t.callee.method in ("max", "min", "clamp") and re.search(r"f32|f64", t.callee.name or "") and t.callee.trait != "std::iter::Iterator" and any(a.kind == "const" for a in t.args):
+                    c = next(a for a in t.args if a.kind == "const")
+                    ck.ob("SELECT", name + "/clamp", False, "%s bounds a line maximum with the constant %s (%s): maxima beyond it are not reported as they are" % (name, c, t.callee.method), where=fb.where(t.line))
         used = {t.callee.res.rsplit("::", 1)[-1] for fb in fam for _, t in fb.calls() if t.callee.res and t.callee.res.startswith("matrix::Matrix::") and t.callee.res.rsplit("::", 1)[-1] in ("rows", "cols")}
         ck.ob("SELECT", name + "/axis", used == {acc}, "%s iterates Matrix::%s (expected %s)" % (name, "/".join(sorted(used)) or "nothing", acc), where=b.where())
     for name, good, bad in (("rows", "row", "col"), ("cols", "col", "row")):
